@@ -7,7 +7,7 @@ from vlib.driver import Plan
 from vlib.xh import Condition
 
 H = "harness/c20.py"
-Q0 = ["$.*", "$..*", "$['1']", "$['+1']", "$['-1'][0]", "$['-1'][-1]", "$['-1'][::-1]", "$['01']['~']", "$['01']['/']", "$..['']", "$['01'].é",
+Q0 = ["$.*", "$..*", "$['1']", "$['+1']", "$['-1'][0]", "$['-1'][-1]", "$['-1'][::-1]", "$['01']['~']", "$['01']['/']", "$..['']", "$['01'].é", "$['01']['-0']", "$['01']['0']",
       "$[?@ == 1]", "$..[?@ > 0]", "$['01'].*", "$[1]", "$[-1]"]
 Q1 = ["$.*", "$..*", "$.x[0].*", "$..x", "$..x[*]", "$..[?@ == 1]", "$.*.*"]
 Q2 = ["$[*]", "$..*", "$[1]['0']", "$[1]['1'][0]", "$[1][0]", "$[1][1]", "$[0][-1]", "$[0][1:]", "$..[0]", "$[?@ == 1]"]
